@@ -7,6 +7,25 @@ ROOT = os.path.dirname(os.path.dirname(os.path.abspath(__file__)))
 ALL = [f'C{i:02d}' for i in range(1, 21)]
 
 CHECKS = {
+    'C03': dict(
+        technique='TLA+ spec SeqBatch.tla (slicing loop + bucket loop) model-checked against declarative definitions; '
+                  'every TLC final state replayed into real ClientDataset.batch/padded_batch; random larger real '
+                  'runs validated as traces by TLC (SeqBatchTrace.tla)',
+        text='TLC proves, for all (N, batch size, buckets, mode, drop) in the bounds, that the algorithmic model equals '
+             'the declarative partition/mask/bucket definitions; each of those cases is executed on the real code '
+             '(several dtypes, trailing shapes, preprocessor chains incl. in-place mutating ones) and compared '
+             'exactly, and larger random real runs are accepted by the specification with all invariants checked.',
+        note='Feature values are compared through the id-decoding projection of the driver; TLC, JVM.',
+        design='5/C03'),
+    'C04': dict(
+        technique='TLA+ spec ShuffleBatch.tla (Refill/Take/Emit) model-checked over all permutations and over the '
+                  'hyper-parameter grid; real shuffled streams (sequential, repeated, interleaved iterators) '
+                  'validated as traces by TLC (ShuffleBatchTrace.tla), permutations inferred from the stream',
+        text='TLC proves windows-are-permutations, balance, cyclic order without shuffling and the documented batch '
+             'count (against a declarative restatement) for all small instances; every recorded real stream over much '
+             'larger ranges and many seeds must be a behaviour of the specification with the same invariants.',
+        note='Which permutation is drawn is left to NumPy; re-shuffling asserted only for N>=8 over >=3 windows.',
+        design='5/C04'),
     'C09': dict(
         technique='TLA+ spec Experiment.tla model-checked by TLC (crash at every control state, liveness); real '
                   'run_federated_experiment explored breadth-first over crash-reachable directory states with an '
